@@ -236,8 +236,11 @@ def bind_args(st, c, args, kwargs, closure_env=None, npos=None):
     if c.vararg:
         extra = args[len(pos):]
         env[c.vararg] = Val(T.Ty('xtuple'), tuple(extra))
+    has_kwargs = any(c.params[p].kind == 'kwargs' for p in names)
     for k, v in kwargs.items():
         if k not in c.params:
+            if has_kwargs:
+                continue        # swallowed by the callee's **kwargs (opaque to the contract)
             raise Undecided('unexpected keyword %s for %s' % (k, c.key))
         env[k] = v
     for p in pos:
@@ -776,6 +779,8 @@ def bi_list(st, args, kw):
     if not args:
         return B.new_list(st, [])
     v = args[0]
+    if v.t.kind == 'union' and not st.spec:
+        v = E.concretize(st, v)
     if v.t.kind in ('list', 'seq'):
         s, et = B.seq_of(st, v)
         if st.spec:
@@ -785,6 +790,22 @@ def bi_list(st, args, kw):
         return Val(T.TList(et), ref)
     if v.t.kind == 'iter':
         return v.z.to_list(st)
+    if v.t.kind == 'set' and not st.spec:
+        # list(a_set): the elements in an arbitrary order, each once
+        from . import loops
+        it = loops.as_iter(st, v)
+        et = v.t.args[0]
+        n = st.fresh(I, 'ln')
+        st.assume(n == it.n)
+        k = z3.Int('k!ls%d' % st.nfresh)
+        arr = z3.Select  # placeholder to keep linters quiet
+        probe = it.item(k)
+        base = probe.z.arg(0) if z3.is_app(probe.z) and probe.z.decl().kind() == z3.Z3_OP_SELECT else None
+        if base is None:
+            raise Undecided('list(set): unexpected iterator shape')
+        ref = st.new_ref('list')
+        st.list_store(ref, et, SeqV(base, it.n))
+        return Val(T.TList(et), ref)
     raise Undecided('list(%r)' % (v.t,))
 
 
